@@ -232,13 +232,39 @@ func (w *asWorld) checkSubmission(c *asCert) {
 		gis = append(gis, crypto.Keccak256(le))
 	}
 	commit := crypto.Keccak256Hash(newR[:], crypto.Keccak256(gis...))
+	var wireSig []byte
+	if w.fep {
+		// FEP commitment: new exit root, (little-endian global index, exit leaf) per imported exit, height, aggchain params
+		var chunks []byte
+		for _, ib := range q.ImportedBridgeExits {
+			for i := 0; i < 32; i++ {
+				chunks = append(chunks, ib.GlobalIndex.Value[31-i])
+			}
+			eh := wireExitHash(ib.BridgeExit)
+			chunks = append(chunks, eh[:]...)
+		}
+		l8 := make([]byte, 8)
+		for i := 0; i < 8; i++ {
+			l8[i] = byte(q.Height >> (8 * i))
+		}
+		gen, ok := q.AggchainData.GetData().(*v1types.AggchainData_Generic)
+		if !ok || gen.Generic.AggchainParams == nil {
+			w.fail(fmt.Sprintf("[C10] certificate %d: an aggchain-prover certificate without aggchain proof data", c.id))
+			return
+		}
+		commit = crypto.Keccak256Hash(newR[:], crypto.Keccak256(chunks), l8, gen.Generic.AggchainParams.Value)
+		if gen.Generic.Signature != nil {
+			wireSig = gen.Generic.Signature.Value
+		}
+	} else if sig, ok := q.AggchainData.GetData().(*v1types.AggchainData_Signature); ok {
+		wireSig = sig.Signature.Value
+	}
 	if c.signed != commit {
 		w.fail(fmt.Sprintf("[C10] certificate %d: the hash handed to the signer is not the commitment of the submitted content", c.id))
 	}
 	want, _ := w.signer.SignHash(context.Background(), commit)
 	w.signer.hashes = w.signer.hashes[:len(w.signer.hashes)-1]
-	sig, ok := q.AggchainData.GetData().(*v1types.AggchainData_Signature)
-	if !ok || !bytes.Equal(sig.Signature.Value, want) {
+	if !bytes.Equal(wireSig, want) {
 		w.fail(fmt.Sprintf("[C10] certificate %d: the submitted signature is not the signer's output for the commitment", c.id))
 	}
 	// the stored copy reproduces the same wire message
@@ -595,7 +621,11 @@ func asWorldGen(r *Run, rng *Rng, w *asWorld, steps int) {
 	if rng.Chance(30) {
 		maxSize = uint64(200 + rng.Intn(9000))
 	}
-	do(fmt.Sprintf("new %s %d %d %s %s", b2s(rng.Bool()), start, maxSize, b2s(rng.Bool()), b2s(rng.Chance(25))))
+	fep := rng.Chance(35) // aggchain-prover flow (its start-up check waits for the syncer to reach the start block: start 0)
+	if fep {
+		start = 0
+	}
+	do(fmt.Sprintf("new %s %d %d %s %s %s", b2s(rng.Bool()), start, maxSize, b2s(rng.Bool()), b2s(rng.Chance(25)), b2s(fep)))
 	do(fmt.Sprintf("l1blk 1 %d", 1+rng.Intn(3)))
 	do("fin 1")
 	do("restart")
@@ -714,9 +744,12 @@ func asWorldGen(r *Run, rng *Rng, w *asWorld, steps int) {
 				do("epoch")
 			}
 		case x < 86:
-			if rng.Bool() {
+			switch {
+			case fep && rng.Chance(50):
+				do([]string{"prover fail", "prover notyet", "prover cut 1", "prover cut 2", "prover cut 50"}[rng.Intn(5)])
+			case rng.Bool():
 				do("failhdr")
-			} else {
+			default:
 				do("failsub")
 			}
 			do([]string{"epoch", "status"}[rng.Intn(2)])
